@@ -11,7 +11,7 @@
 
    Two switches select the unrepaired code:
      fix_stat = false : the final flush passes the actual count to stats.Add (defect F1)
-     fix_eos  = false : the unigram </s> can be marked for pruning by the unigram threshold (defect F12)
+     fix_eos  = false : the unigram </s> can be marked for pruning by the unigram threshold (defect F12L)
    The repaired tree is (true, true). *)
 From Coq Require Import List NArith ZArith QArith Bool.
 From Kenlm Require Import C05.KNDefs.
@@ -32,12 +32,6 @@ Fixpoint ins_count (g : gram) (l : list (gram * N)) : list (gram * N) :=
 Definition sorted_counts (n : nat) (ev : list gram) : list (gram * N) :=
   fold_right (fun e acc => ins_count (pad n e) acc) [] ev.
 
-Fixpoint lcp (a b : gram) : nat :=
-  match a, b with
-  | x :: a', y :: b' => if (x =? y)%N then S (lcp a' b') else O
-  | _, _ => O
-  end.
-
 Definition MAX64 : N := 18446744073709551615%N.
 
 Section Adjust.
@@ -56,7 +50,7 @@ Section Adjust.
   Definition mark_lower (l : lower) : bool :=
     let k := length (l_gram l) in
     let by_count := (l_actual l <=? thr o k)%N in
-    let by_count := if fix_eos then by_count && negb (special1 (l_gram l)) else by_count in
+    let by_count := if fix_eos then by_count && negb (geqb (l_gram l) [EOS]) else by_count in
     by_count || has_pruned (l_gram l).
   Definition emit_lower (l : lower) : entry :=
     mkE (l_gram l) (l_count l) (mark_lower l) (l_count l).
